@@ -598,6 +598,35 @@ def run_cliprompt(spec, tier, seed, res):
                                   f'instead of treating the input as not supplied', {'itype': itype, 'script': bad[:2] + ['<Ctrl-C>']})
                 elif got is not None:
                     res.violation(f'C11|{itype}|cli-rejected-answer-stored', f'{itype}: answers {bad[:2]} (rejected) then Ctrl-C: the file holds {got!r}', {'itype': itype, 'script': bad[:2] + ['<Ctrl-C>']})
+            # the input ends (Ctrl-D, a pipe that runs dry) when this input's turn comes: nobody supplied it, so it has no value
+            # afterwards - the end of input is not an empty answer (blank text, 0, "no" ...)
+            with tempfile.TemporaryDirectory() as d:
+                path = os.path.join(d, 'in.ini')
+                n_eof = [0]
+
+                def inp4(prompt):
+                    m = re.search(r'----\[ c11\.(\w+) \]', prompt)
+                    cur = m.group(1) if m else inp4.cur
+                    inp4.cur = cur
+                    if cur == itype:
+                        n_eof[0] += 1
+                        if n_eof[0] > 50:
+                            raise KeyboardInterrupt()       # (a loop that re-asks at the end of input for ever is C20's subject)
+                        raise EOFError()
+                    return valid_first[cur]
+                inp4.cur = None
+                r = cli.run_cli(['solve', path, '--year', '2099', '--form', 'c11', '--prompt-missing', '--writeback-input'], input_fn=inp4)
+                res.evaluations += 1
+                res.count('cli_prompt_sessions')
+                res.count('cli_end_of_input_sessions')
+                cp = drive.config_from(text=open(path).read()) if os.path.exists(path) else drive.config_from({})
+                got = cp.get('c11', itype, raw=True) if cp.has_option('c11', itype) else None
+                res.distinct.add(f'cli-eof|{itype}')
+                if n_eof[0] and got is not None:
+                    res.violation(f'C11|{itype}|cli-end-of-input-stored-as-an-answer', f'{itype}: the input ended when c11.{itype} was asked; the file holds {got!r} for it although nobody supplied it',
+                                  {'itype': itype, 'script': ['<end of input>']})
+                if n_eof[0] and 'Successfully solved' in r.stdout:
+                    res.violation(f'C11|{itype}|cli-end-of-input-solved', f'{itype}: the input ended when c11.{itype} was asked and the run reports success', {'itype': itype, 'script': ['<end of input>']})
     finally:
         del hx.hforms.available_forms[2099]
     return res
